@@ -142,16 +142,16 @@ TEXT = {
         "technique": "Lean 4 proof for the expression fragment (lexer concatenation theorem + printer/lexer agreement + parser completeness) + table obligations + property predicate evaluated on the implementation",
     },
     "C05": {
-        "level": "Proof (partial: a fragment). Explored on the real entry points: range, token alignment (with the >> split), nesting and sibling order of every node of every returned tree; Lean theorems about Pos()/End() as functions of the tree exist (C04/C19) but the parser-side alignment is not proved. Proved for the ParseType entry point: for every accepted input of the model (lexer + parser), every node - types, struct fields, identifiers - starts at a token start and ends at a token end ('>>' and '<>' counted as two one-byte tokens), satisfies 0 <= pos < end <= len, and contains its children in order without overlap (MF.Props.C05.type_positions); the known defect of a back-quoted simple type name (End() two bytes short) is excluded by hypothesis and reproduced by MF.Props.C05.type_positions_fails_backquoted.",
+        "level": "Proof (partial: a fragment). Explored on the real entry points: range, token alignment (with the >> split), nesting and sibling order of every node of every returned tree; Lean theorems about Pos()/End() as functions of the tree exist (C04/C19) but the parser-side alignment is not proved. Proved for the ParseType entry point: for every accepted input of the model (lexer + parser), every node - types, struct fields, identifiers - starts at a token start and ends at a token end ('>>' and '<>' counted as two one-byte tokens), satisfies 0 <= pos < end <= len, and contains its children in order without overlap (MF.Props.C05.type_positions); the known defect of a back-quoted simple type name (End() two bytes short) is excluded by hypothesis and reproduced by MF.Props.C05.type_positions_fails_backquoted. Proved for the expression fragment: for lexer output and a successful ParseExpr of the model with positions (MF/Model/ExprPos.lean, tied to the Go parser by the EXPRPOS channel), every Go node of the tree starts at the pos of a token and ends at the end of a token it consumed, so Pos < End <= len, children lie inside their parent, in source order without overlap (MF.Props.C05.expr_positions); a folded sign '- 1' is one literal over two tokens.",
         "design_ref": "DESIGN.md §4 C05",
-        "note": "Theorems cover the ParseType entry point only and are about the models (tied to the code by the LEX and TYPE channels); every other entry point and node kind is exploration. Known findings are listed in known-findings.txt.",
-        "technique": "Lean 4 proof for ParseType (function-for-function parser model with positions, grammar as an inductive relation, lexer window/concatenation theorems) + TYPE correspondence channel + property predicate evaluated on the implementation (corpus, reference grammar G, grafts, edits, mutations)",
+        "note": "Theorems cover the ParseType entry point and the expression fragment of ParseExpr only and are about the models (tied to the code by the LEX, TYPE and EXPRPOS channels); every other entry point and node kind is exploration. Known findings are listed in known-findings.txt.",
+        "technique": "Lean 4 proof for ParseType and for the expression fragment with positions (erasure to the proved expression model; function-for-function parser model with positions, grammar as an inductive relation, lexer window/concatenation theorems) + TYPE correspondence channel + property predicate evaluated on the implementation (corpus, reference grammar G, grafts, edits, mutations)",
     },
     "C06": {
-        "level": "Proof (partial: a fragment). Explored on the real entry points: slice-and-reparse and splice-and-reparse for every node of accepted corpus/probe/mutated inputs. Proved for the ParseType entry point (lexer and parser model): for every accepted input and every type node n whose subtree has no SimpleType on a back-quoted token (known defect, End() two bytes short), the slice input[Pos:End] lexes and parses on its own to n with all positions decreased by Pos() (MF.Props.C06.type_exact; parser side type_exact_tokens, lexer side slice_lex = a window-locality theorem for the lexer model: no sentinel at the cut, positions shifted, a '>>' cut in the middle becomes '>'); StructField and Ident nodes are excluded (not types); the same statement is evaluated on the implementation for every type node of every OK request of the TYPE channel (flag ex).",
+        "level": "Proof (partial: a fragment). Explored on the real entry points: slice-and-reparse and splice-and-reparse for every node of accepted corpus/probe/mutated inputs. Proved for the ParseType entry point (lexer and parser model): for every accepted input and every type node n whose subtree has no SimpleType on a back-quoted token (known defect, End() two bytes short), the slice input[Pos:End] lexes and parses on its own to n with all positions decreased by Pos() (MF.Props.C06.type_exact; parser side type_exact_tokens, lexer side slice_lex = a window-locality theorem for the lexer model: no sentinel at the cut, positions shifted, a '>>' cut in the middle becomes '>'); StructField and Ident nodes are excluded (not types); the same statement is evaluated on the implementation for every type node of every OK request of the TYPE channel (flag ex). Proved for the expression fragment: the text input[Pos:End] of every sub-expression of a parsed expression lexes on its own (a token-aligned slice needs no ';' behind it) and ParseExpr of it is the node with all positions moved Pos bytes to the left (MF.Props.C06.expr_exact_partial, side condition: no unquoted SAFE_CAST / REPLACE_FIELDS field name inside the node); not covered, and false in the Go code, for the Idents used as path components or field names ('a.1', 'a.select').",
         "design_ref": "DESIGN.md §4 C06",
-        "note": "Theorems cover the ParseType entry point only and are about the models (tied to the code by the LEX and TYPE channels); every other entry point and node kind is exploration. Known findings are listed in known-findings.txt.",
-        "technique": "Lean 4 proof for ParseType (function-for-function parser model with positions, grammar as an inductive relation, lexer window/concatenation theorems) + TYPE correspondence channel + property predicate evaluated on the implementation (corpus, reference grammar G, grafts, edits, mutations)",
+        "note": "Theorems cover the ParseType entry point and the expression fragment of ParseExpr only and are about the models (tied to the code by the LEX, TYPE and EXPRPOS channels); every other entry point and node kind is exploration. Known findings are listed in known-findings.txt.",
+        "technique": "Lean 4 proof for ParseType and for the expression fragment with positions (erasure to the proved expression model; function-for-function parser model with positions, grammar as an inductive relation, lexer window/concatenation theorems) + TYPE correspondence channel + property predicate evaluated on the implementation (corpus, reference grammar G, grafts, edits, mutations)",
     },
     "C08": {
         "level": "Proof (partial: a fragment). Explored on the real entry points: every golden input not marked !bad_ (the maintainers' rendering of each documented production) and its keyword/pseudo-keyword re-casings through the specific entry point and ParseStatement (equal trees), and ';'-joined lists through the list entry points. Plus the reference grammar G written from the documentation (harness/grammar*.go: 202 non-terminals, 504 alternatives; systematic enumeration of every alternative, every optional on/off, list lengths min..min+2, keyword-like identifiers in both cases, and seeded random derivations: 12 k sentences quick / 146 k thorough), each sentence through its entry point and ParseStatement with equal trees and with the lexer's tokens compared to the generator's own terminal list. Eleven documented forms that memefish rejects are recorded findings (G-known:*), nine others were repaired. Proved for the ParseType entry point: the documented type grammar G_T (MF/Spec/TypeGrammar.lean, over token kinds, '>>' and '<>' standing for two one-byte tokens) is exactly what the model of ParseType accepts and the tree returned is the derivation tree: soundness (type_sound), completeness for ALL derivations with a concrete fuel (type_complete, type_complete_tree), unambiguity (type_unique); side condition HeadsOK: memefish rejects a named type whose first path component reads as a simple type name (string.x), which G_T derives. The model is tied to memefish.ParseType by the TYPE channel (all type texts up to a size bound in six spellings, all token sequences up to length 4 / 6 over the type vocabulary, mutations, soups).",
